@@ -163,6 +163,49 @@ def acyclic (edges : List (String × String)) : Bool :=
   edges.all (fun e => !(reach edges edges.length [e.2]).contains e.1)
 
 
+/-! ### the receive loops never perform a blocking send -/
+
+/-- the functions that ARE the receive loops of a tunnel -/
+def loopRoots : List String := ["tunnelServer.serve", "tunnelChannel.recvLoop"]
+
+/-- calls that run on the caller's goroutine (a `go` statement starts another one), over function ids -/
+def syncEdgesN : List (Nat × Nat) :=
+  callEdgesN.filterMap (fun e => if e.2.2 then none else some (e.1, e.2.1))
+
+/-- ids reachable from `front` (breadth first, at most `fuel` rounds; stops at the fixpoint) -/
+def reachN (edges : List (Nat × Nat)) : Nat → List Nat → List Nat
+  | 0, front => front
+  | fuel + 1, front =>
+    let next := ((edges.filter (fun e => front.contains e.1)).map (·.2)).filter (fun x => !front.contains x)
+    if next.isEmpty then front else reachN edges fuel (front ++ next.eraseDups)
+
+def fnIdOf (n : String) : Option Nat :=
+  let i := fnNames.idxOf n
+  if i < fnNames.length then some i else none
+
+def loopRootIds : List Nat := loopRoots.filterMap fnIdOf
+
+/-- every function that can run, synchronously, on a receive-loop goroutine
+    (calls through interfaces resolved by method name: an over-approximation) -/
+def loopFnIds : List Nat := reachN syncEdgesN fnNames.length loopRootIds
+
+def loopFns : List String := loopFnIds.filterMap (fun i => fnNames[i]?)
+
+/-- the fields holding the carrier stream -/
+def carrierFields : List (String × String) :=
+  [("tunnelServer", "stream"), ("tunnelServerStream", "stream"), ("tunnelChannel", "stream"), ("tunnelClientStream", "stream")]
+
+/-- function-valued fields whose call performs a carrier `Send` -/
+def sendingCallbacks : List (String × String) :=
+  [("defaultReceiver", "updateWindow"), ("defaultSender", "sendFunc"), ("noFlowControlSender", "sendFunc")]
+
+/-- rows in which a function that can run on a receive-loop goroutine performs,
+    on that goroutine, a carrier `Send` (directly or through a sending callback) -/
+def loopSendViolations (t : List Access) : List Access :=
+  t.filter (fun a => loopFnIds.contains a.fnId && !a.async && a.how == "call" &&
+    ((carrierFields.contains (a.strct, a.field) && (a.method == "Send" || a.method == "SendMsg")) ||
+     sendingCallbacks.contains (a.strct, a.field)))
+
 def showAccess (a : Access) : String :=
   s!"{a.strct}.{a.field} in {a.fn}: {if a.write then "write" else "read"} ({a.how}) holding {a.held}"
 
